@@ -512,6 +512,10 @@ func TestC07(t *testing.T) {
 		c07child(t)
 		return
 	}
+	if os.Getenv("C07_STRACE_CHILD") != "" {
+		c07straceChild(t)
+		return
+	}
 	run := vkit.NewRun(t, "C07", "fault_enumeration",
 		"crash points = every verifhook marker hit by the instrumented store operation (after each file-system effect of put/remove/"+
 			"file creation, one per share handed to the buffered ODS/Q4 writers) × scenario (13) × writer interleaving (natural, ODS first, Q4 first) × square; "+
@@ -585,12 +589,13 @@ func TestC07(t *testing.T) {
 			}
 		}
 	}
+	c07strace(run, base)
 	run.Require("crash_points", 500)
 	run.Require("images/checked", 40)
 	run.Require("lookup/served", 5)
 	run.Require("lookup/absent", 5)
 	run.Assume("process death only (page cache survives); power loss / fsync ordering is outside the statement")
-	run.Assume("marker set covers every file-system effect of put/remove (validated by strace in thorough tier: see DESIGN)")
+	run.Assume("marker completeness is validated by the strace pass for PutODSQ4/PutODS/RemoveQ4/RemoveODSQ4/empty put (counters strace/*); NewStore's empty-file cleanup has two unlinks without a marker between them")
 }
 
 func headN(s []string, n int) []string {
@@ -657,4 +662,177 @@ func c07child(t *testing.T) {
 		}
 	}
 	t.Fatalf("unknown scenario")
+}
+
+// --- marker completeness: every file-system-mutating syscall of put/remove must be separated from
+// the next one by a marker (otherwise a crash point between two effects would not be enumerated).
+// A child performs the operations with every marker made visible as a recognisable no-op syscall
+// (faccessat on /verif-marker/<name>) under strace; the parent parses the trace.
+
+func c07straceChild(t *testing.T) {
+	parts := strings.Split(os.Getenv("C07_STRACE_CHILD"), ",")
+	dir := parts[0]
+	restore := verifhook.Set(&verifhook.Handler{Point: func(name string, _ any) {
+		_ = syscall.Faccessat(-100, "/verif-marker/"+name, 0, 0)
+	}})
+	defer restore()
+	ctx := context.Background()
+	rng := vkit.NewRNG(7, "C07strace")
+	sq := vkit.GenSquare(rng, 16, "runs", 5)
+	mark := func(s string) { _ = syscall.Faccessat(-100, "/verif-marker/PHASE:"+s, 0, 0) }
+	s, err := store.NewStore(&store.Parameters{RecentBlocksCacheSize: 1}, dir)
+	if err != nil {
+		t.Fatal(err)
+	}
+	mark("put-odsq4")
+	if err := s.PutODSQ4(ctx, sq.Roots, 5, sq.EDS); err != nil {
+		t.Fatal(err)
+	}
+	mark("remove-q4")
+	if err := s.RemoveQ4(ctx, 5, sq.Roots.Hash()); err != nil {
+		t.Fatal(err)
+	}
+	mark("putq4-again")
+	if err := s.PutODSQ4(ctx, sq.Roots, 5, sq.EDS); err != nil {
+		t.Fatal(err)
+	}
+	mark("put-ods-second-height")
+	if err := s.PutODS(ctx, sq.Roots, 1029, sq.EDS); err != nil {
+		t.Fatal(err)
+	}
+	mark("remove-odsq4")
+	if err := s.RemoveODSQ4(ctx, 5, sq.Roots.Hash()); err != nil {
+		t.Fatal(err)
+	}
+	mark("put-empty")
+	e := vkit.EmptySquare()
+	if err := s.PutODSQ4(ctx, e.Roots, 9, e.EDS); err != nil {
+		t.Fatal(err)
+	}
+	mark("end")
+}
+
+// c07strace returns (mutating syscalls seen, gaps = pairs of consecutive mutating syscalls without a
+// marker in between, as text).
+func c07strace(run *vkit.Run, base string) {
+	if _, err := exec.LookPath("strace"); err != nil {
+		run.Count("strace/unavailable", 1)
+		return
+	}
+	dir := filepath.Join(base, "strace-store")
+	_ = os.MkdirAll(dir, 0o755)
+	out := filepath.Join(base, "strace.out")
+	cmd := exec.Command("strace", "-f", "-qq", "-s", "200", "-o", out,
+		"-e", "trace=openat,open,creat,write,pwrite64,writev,linkat,link,symlinkat,symlink,unlinkat,unlink,renameat,renameat2,rename,ftruncate,truncate,mkdir,mkdirat,faccessat,faccessat2,access",
+		os.Args[0], "-test.run", "^TestC07$", "-test.timeout", "0")
+	cmd.Env = append(os.Environ(), "C07_STRACE_CHILD="+dir, "VERIF_STATUS_FILE=", "GOMAXPROCS=2")
+	if b, err := cmd.CombinedOutput(); err != nil {
+		run.Inconclusive("strace child failed: " + err.Error() + " " + tailStr(string(b), 300))
+		return
+	}
+	data, err := os.ReadFile(out)
+	if err != nil {
+		run.Inconclusive("no strace output")
+		return
+	}
+	fdPath := map[string]string{}
+	started := false
+	lastMut := ""
+	markersSince := 0
+	var gaps []string
+	muts, marks := 0, 0
+	phase := ""
+	for _, line := range strings.Split(string(data), "\n") {
+		if i := strings.Index(line, " "); i > 0 {
+			line = strings.TrimSpace(line[i+1:]) // strip pid
+		}
+		if strings.Contains(line, "/verif-marker/") {
+			name := line[strings.Index(line, "/verif-marker/")+len("/verif-marker/"):]
+			if j := strings.Index(name, "\""); j >= 0 {
+				name = name[:j]
+			}
+			if strings.HasPrefix(name, "PHASE:") {
+				phase = strings.TrimPrefix(name, "PHASE:")
+				started = true
+				lastMut = "" // operations are separate API calls; no crash point enumeration across them needed
+				continue
+			}
+			marks++
+			markersSince++
+			continue
+		}
+		if !started || strings.Contains(line, "resumed>") {
+			continue
+		}
+		isMut, desc := false, ""
+		switch {
+		case strings.HasPrefix(line, "openat(") || strings.HasPrefix(line, "open("):
+			if strings.Contains(line, dir) {
+				// remember fd -> path for successful opens
+				if k := strings.LastIndex(line, "= "); k > 0 {
+					fd := strings.TrimSpace(line[k+2:])
+					p := line[strings.Index(line, "\"")+1:]
+					p = p[:strings.Index(p, "\"")]
+					if !strings.HasPrefix(fd, "-") {
+						fdPath[fd] = p
+					}
+					if strings.Contains(line, "O_CREAT") && !strings.HasPrefix(fd, "-") {
+						isMut, desc = true, "create "+strings.TrimPrefix(p, dir)
+					}
+				}
+			}
+		case strings.HasPrefix(line, "write(") || strings.HasPrefix(line, "pwrite64(") || strings.HasPrefix(line, "writev("):
+			fd := line[strings.Index(line, "(")+1:]
+			fd = fd[:strings.IndexAny(fd, ",")]
+			if p, ok := fdPath[fd]; ok && strings.HasPrefix(p, dir) {
+				isMut, desc = true, "write "+strings.TrimPrefix(p, dir)
+			}
+		case strings.HasPrefix(line, "linkat(") || strings.HasPrefix(line, "link(") || strings.HasPrefix(line, "symlinkat(") || strings.HasPrefix(line, "symlink(") ||
+			strings.HasPrefix(line, "unlinkat(") || strings.HasPrefix(line, "unlink(") || strings.HasPrefix(line, "rename") || strings.HasPrefix(line, "ftruncate(") || strings.HasPrefix(line, "truncate("):
+			if strings.Contains(line, dir) && !strings.Contains(line, "= -1") {
+				isMut, desc = true, line[:strings.Index(line, "(")]+" "+shortPaths(line, dir)
+			}
+		}
+		if !isMut {
+			continue
+		}
+		muts++
+		if lastMut != "" && markersSince == 0 {
+			gaps = append(gaps, fmt.Sprintf("[%s] %s  →  %s", phase, lastMut, desc))
+		}
+		lastMut, markersSince = desc, 0
+	}
+	run.Count("strace/mutating_syscalls", muts)
+	run.Count("strace/marker_syscalls", marks)
+	// known and harmless: none expected inside put/remove. NewStore's cleanup of the empty-block files is
+	// outside the traced phases.
+	run.Extra("strace_marker_gaps", gaps)
+	run.Count("strace/gaps", len(gaps))
+	if muts < 10 || marks < 100 {
+		run.Inconclusive(fmt.Sprintf("strace validation saw too little (%d mutating syscalls, %d markers)", muts, marks))
+	}
+	if len(gaps) > 0 {
+		run.Inconclusive(fmt.Sprintf("marker set incomplete: %d pairs of file-system effects without a crash point between them, e.g. %s", len(gaps), gaps[0]))
+	}
+	_ = os.RemoveAll(dir)
+	_ = os.Remove(out)
+}
+
+func shortPaths(line, dir string) string {
+	var ps []string
+	rest := line
+	for {
+		i := strings.Index(rest, "\"")
+		if i < 0 {
+			break
+		}
+		rest = rest[i+1:]
+		j := strings.Index(rest, "\"")
+		if j < 0 {
+			break
+		}
+		ps = append(ps, strings.TrimPrefix(rest[:j], dir))
+		rest = rest[j+1:]
+	}
+	return strings.Join(ps, " ")
 }
